@@ -142,6 +142,13 @@ func (*tableStore).get
   props C16
   ensures true
 
+func (*Stream).JoinKeyFields
+  props C16
+  ensures the-index-key-is-the-table-side-of-the-on-pairs: forall(k, 0, len(s.config.JoinConfigs), s.config.JoinConfigs[k].Table == table && forall(j, 0, k, s.config.JoinConfigs[j].Table != table) ==> result1 == nil && len(result0) == len(s.config.JoinConfigs[k].OnPairs) && forall(i, 0, len(result0), result0[i] == s.config.JoinConfigs[k].OnPairs[i].TableField))
+  ensures a-table-no-join-mentions-is-an-error: forall(k, 0, len(s.config.JoinConfigs), s.config.JoinConfigs[k].Table != table) ==> result1 != nil
+  loop 1 invariant forall(j, 0, $i, s.config.JoinConfigs[j].Table != table)
+  loop 2 invariant len(fields) == len(jc.OnPairs) && forall(j, 0, $i, fields[j] == jc.OnPairs[j].TableField)
+
 extern iface.TableSource.Lookup
   props C16
 
